@@ -11,6 +11,7 @@ import (
 	"bytes"
 	"fmt"
 	"math/rand"
+	"net"
 	"os"
 	"reflect"
 	"runtime"
@@ -18,6 +19,7 @@ import (
 	"strconv"
 	"strings"
 	"sync"
+	"sync/atomic"
 	"syscall"
 	"time"
 
@@ -32,7 +34,7 @@ func Spec() ev.Spec {
 }
 
 func declare(r *ev.Run, t *tables) {
-	r.Rule("(1) round trips: seeded structured generators for the 16 kinds (counts 0, 1, max-1, max, small, medium; second-precision times incl. 0 / 2^31 / 2^32-1; nil, 4-byte, mapped and native IPv6 addresses; user-agent lengths 0..MaxUserAgentLen; known and unknown reject codes; reject reasons through all three var-int length forms) x protocol versions {every version boundary constant of internal/wire/protocol.go and its predecessor, bulk at 70011..70013, plus uniform 209..70013} x {BaseEncoding, LatestEncoding} x {MainNet, TestNet, TestNet3, SimNet}; one evaluation = one (message, pver, encoding) with law 1, law 2 and the version gate. (2) hostile inputs: for EVERY command of the decoder's table (30, incl. protoconf/authch and the kinds the service ignores) valid frames from the real encoder are mutated by class: bit flips raw / with recomputed checksum, truncation at every offset raw / with consistent header, length-field inflation, consistent limit+1 payloads, count/length var-int inflation at every leading payload offset (0xfd/0xfe/0xff forms, limit-1, limit, limit+1, global limit, 2^32-1, 2^63, 2^64-1; with and without the rest of the payload), non-canonical var-ints, splicing with frames of other commands, magic / checksum / command corruption, random payloads under a valid header; plus raw random bytes with and without a valid magic. Every input is decoded at a drawn protocol version. distinct = distinct (command, mutation class, version interval, outcome, required verdict); every hostile input and every round trip of a non-empty message is non-trivial.")
+	r.Rule("(1b) 16 goroutines encode and decode addr messages of 400 addresses each at once (values only that goroutine uses); (1) round trips: seeded structured generators for the 16 kinds (counts 0, 1, max-1, max, small, medium; second-precision times incl. 0 / 2^31 / 2^32-1; nil, 4-byte, mapped and native IPv6 addresses; user-agent lengths 0..MaxUserAgentLen; known and unknown reject codes; reject reasons through all three var-int length forms) x protocol versions {every version boundary constant of internal/wire/protocol.go and its predecessor, bulk at 70011..70013, plus uniform 209..70013} x {BaseEncoding, LatestEncoding} x {MainNet, TestNet, TestNet3, SimNet}; one evaluation = one (message, pver, encoding) with law 1, law 2 and the version gate. (2) hostile inputs: for EVERY command of the decoder's table (30, incl. protoconf/authch and the kinds the service ignores) valid frames from the real encoder are mutated by class: bit flips raw / with recomputed checksum, truncation at every offset raw / with consistent header, length-field inflation, consistent limit+1 payloads, count/length var-int inflation at every leading payload offset (0xfd/0xfe/0xff forms, limit-1, limit, limit+1, global limit, 2^32-1, 2^63, 2^64-1; with and without the rest of the payload), non-canonical var-ints, splicing with frames of other commands, magic / checksum / command corruption, random payloads under a valid header; plus raw random bytes with and without a valid magic. Every input is decoded at a drawn protocol version. distinct = distinct (command, mutation class, version interval, outcome, required verdict); every hostile input and every round trip of a non-empty message is non-trivial.")
 	r.Assume(
 		"norm(m, pver) is written from the protocol: ping has no nonce at pver <= BIP0031Version; addr entries carry a timestamp from NetAddressTimeVersion; version carries the relay flag from BIP0037Version and its embedded addresses carry no timestamp; reject carries its hash only for tx/block; IP addresses are compared in 16-byte form, times at one-second precision",
 		"law 2 is asserted for frames produced by the encoder from generated messages (hostile frames that happen to decode need not re-encode identically: the decoder tolerates short version messages and ignores protoconf/authch payloads)",
@@ -304,6 +306,63 @@ func concurrentRoundTrips(r *ev.Run, t *tables) {
 			wg.Wait()
 		})
 	}
+	c.flush()
+	// many encoders at once on the codec's shared scratch buffers: addr messages are almost nothing but 8-byte and
+	// 4-byte fields written one by one; every goroutine uses values only it uses
+	r.Do("rtc/hammer", func() {
+		var wg sync.WaitGroup
+		var bad atomic.Value
+		n := r.Pick(120, 1200)
+		for g := 0; g < 16; g++ {
+			g := g
+			wg.Add(1)
+			go func() {
+				defer wg.Done()
+				defer func() {
+					if p := recover(); p != nil {
+						bad.CompareAndSwap(nil, fmt.Sprintf("panic: %v", p))
+					}
+				}()
+				for i := 0; i < n && bad.Load() == nil; i++ {
+					m := wire.NewMsgAddr()
+					for a := 0; a < 400; a++ {
+						sv := wire.ServiceFlag(uint64(g+1)<<56 | uint64(i)<<24 | uint64(a))
+						na := wire.NewNetAddressIPPort(net.IPv4(10, byte(g), byte(a>>8), byte(a)), uint16(1000+g), sv)
+						na.Timestamp = time.Unix(int64(1600000000+g*1000000+a), 0)
+						_ = m.AddAddress(na)
+					}
+					var buf bytes.Buffer
+					if _, err := wire.WriteMessageWithEncodingN(&buf, m, wire.ProtocolVersion, wire.MainNet, wire.BaseEncoding); err != nil {
+						bad.CompareAndSwap(nil, "encode: "+err.Error())
+						return
+					}
+					_, got, _, err := wire.ReadMessageWithEncodingN(bytes.NewReader(buf.Bytes()), wire.ProtocolVersion, wire.MainNet, wire.BaseEncoding)
+					if err != nil {
+						bad.CompareAndSwap(nil, "decode of the encoder's own frame: "+err.Error())
+						return
+					}
+					ga, ok := got.(*wire.MsgAddr)
+					if !ok || len(ga.AddrList) != len(m.AddrList) {
+						bad.CompareAndSwap(nil, "decoded message has another shape")
+						return
+					}
+					for a := range m.AddrList {
+						w, x := m.AddrList[a], ga.AddrList[a]
+						if w.Services != x.Services || w.Port != x.Port || !w.IP.Equal(x.IP) || w.Timestamp.Unix() != x.Timestamp.Unix() {
+							bad.CompareAndSwap(nil, fmt.Sprintf("goroutine %d, message %d, address %d: encoded services=%#x port=%d time=%d, decoded services=%#x port=%d time=%d", g, i, a, uint64(w.Services), w.Port, w.Timestamp.Unix(), uint64(x.Services), x.Port, x.Timestamp.Unix()))
+							return
+						}
+					}
+					c.count("concurrent_roundtrips", 1)
+				}
+			}()
+		}
+		wg.Wait()
+		if b := bad.Load(); b != nil {
+			r.Violate("roundtrip-concurrent|addr|field-of-another-encoder", "with 16 encoders at once decode(encode(m)) differs from m: "+b.(string), "rtc/hammer", nil)
+		}
+		r.Count("concurrent_encoder_hammer_runs", 1)
+	})
 	c.flush()
 }
 
